@@ -643,7 +643,7 @@ static std::vector<Instance> instances(const std::string &tier) {
 		IN0(v.push_back(slab_inst<CfgTinyA>("tinyA-fix-8-1024-1025-L3" + sfx, 3, 0, F, {8, 1024, 1025}, FIX));)
 		IN0(v.push_back(slab_inst<CfgTinyA>("tinyA-fix-1024-1025-4097-L3" + sfx, 3, 0, F, {1024, 1025, 4097}, FIX));)
 		IN2(v.push_back(slab_inst<CfgSplit>("split-fix-16-300-513-L2" + sfx, 2, 0, F, {16, 300, 513}, FIX));)
-		IN2(v.push_back(slab_inst<CfgOdd>("odd-fix-8-8192-8193-L3" + sfx, 3, 0, F, {8, 8192, 8193}, FIX));)
+		IN2(v.push_back(slab_inst<CfgOdd>("odd-fix-8-8192-8193-L2" + sfx, 2, 0, F, {8, 8192, 8193}, FIX));)
 	}
 	// depth-capped runs over the full size alphabets
 	IN0(v.push_back(slab_inst<CfgTinyA>("tinyA-L3" + sfx, 3, 0, F, tiny, D));)
